@@ -164,7 +164,6 @@ def run(ctx):
     clean = lambda subj: subj.startswith(("radix:u64", "mwm:heap", "setops:multiset_union", "ksets:bitmask", "mops:"))
     tests = [
         (corrupt_swap, "two adjacent elements of a sort output swapped", lambda s_, e: s_.startswith("radix:u64") and e.get("op") == "sort" and len(e.get("out", [])) >= 8),
-        (corrupt_sort_dup, "one element of a sort output overwritten by its neighbour", lambda s_, e: s_.startswith("radix:u64") and e.get("op") == "sort" and len(e.get("out", [])) >= 8),
         (corrupt_merge_drop, "one element of a merge output dropped", lambda s_, e: s_.startswith("mwm:heap") and e.get("op") == "merge" and len(e.get("out", [])) >= 6),
         (corrupt_kv_values, "values of two pairs with different keys exchanged", lambda s_, e: e.get("op") == "sort_kv" and e.get("ok") and len(e.get("out", [])) >= 6),
         (corrupt_setop, "one element of a set-operation result dropped", lambda s_, e: s_.startswith("setops:multiset_union") and e.get("op") == "setop" and len(e.get("out", [])) >= 4),
@@ -201,12 +200,24 @@ def run(ctx):
                    "empty ways.  Counted as distinct non-trivial: distinct (subject, operation, input) fingerprints with at least "
                    "2 input elements whose call returned Ok (refusals, panics and crashes are not counted).  evaluations = batch "
                    "events judged by TLC." % ("1.05 million" if True else ""))
-    small = [p for p in files if "t-radix" in p] or files
-    ctx.sample_from_trace(small[0], 3)
-    for fam in ("t-setops", "t-lt", "t-ksets"):
-        ps = [p for p in files if fam in os.path.basename(p)]
-        if ps:
-            ctx.sample_from_trace(ps[0], 3)
+    # samples: for a few families the reset event and the first fully logged call with at least 6 input elements
+    for fam in ("m-radix", "m-kv", "m-lt", "m-setops", "m-ksets", "m-co"):
+        ps = [p for p in files if os.path.basename(p).startswith(fam)]
+        if not ps:
+            continue
+        evs = vlib.read_ndjson(ps[0])
+        reset = None
+        for e in evs:
+            if e.get("op") == "reset":
+                reset = e
+                continue
+            n = sum(len(e.get(k, [])) for k in ("in", "a", "b")) + sum(len(r) for r in e.get("runs", []))
+            if n >= 6 and e.get("op") not in ("panic", "crash"):
+                ctx.sample({"trace_file": os.path.relpath(ps[0], vlib.VERIF), "reset": reset, "event": e}, limit=8)
+                break
+    big = [e for p in files if os.path.basename(p).startswith("m-radix") for e in vlib.read_ndjson(p) if e.get("op") == "sort_big"][:1]
+    if big:
+        ctx.sample({"large_regime_event": big[0]}, limit=8)
     ctx.assumptions += [
         "the oracle is the TLA+ definition (SortMerge.tla / SetOps.tla) evaluated by TLC over the recorded inputs and outputs; the "
         "harness generates inputs (sorted inputs by construction through monotone maps, no sort call), encodes keys and, for the "
